@@ -172,13 +172,14 @@ func vNearest(num string) float64 {
 var (
 	vEdgeASCII   = []rune("abcdefghijklmnopqrstuvwxyzABCDEFGHIJKLMNOPQRSTUVWXYZ")
 	vEdgeDigits  = []rune("0123456789")
-	vEdgeCyr     = []rune("абвгдежзийклмнопрстуфхцчшщъьюяАБВ")
-	vEdgeGreek   = []rune("αβγδεζηθλμπσφωΩ")
-	vEdgeCJK     = []rune("米飯麺茶水魚肉卵")
-	vEdgeLatin   = []rune("éèêëàâäôöùûüçñßøåÉÖ")
+	vEdgeCyr     = []rune("абвгдежзийклмнопрстуфхцчшщъьюяАБВРСТЩЯЁёї")
+	vEdgeGreek   = []rune("αβγδεζηθλμπσφωΩΠΣΦΑ")
+	vEdgeCJK     = []rune("米飯麺茶水魚肉卵豆腐한글かな")
+	vEdgeLatin   = []rune("éèêëàâäôöùûüçñßøåÉÖÀÐÿµªºþ")
+	vEdgeOther   = []rune("אבגשעبتثकखगกขด")
 	vInnerWild   = []string{" ", "  ", "/", ".", "_", "'", "(", ")", "%", "+", "&", ",", "\"", ":", "-", "#", "=", ", ", ": ", " - "}
-	vInnerTame   = []string{" ", "/", ".", "_", "-"}
-	vEdgeClasses = [][]rune{vEdgeASCII, vEdgeASCII, vEdgeASCII, vEdgeDigits, vEdgeCyr, vEdgeGreek, vEdgeCJK, vEdgeLatin}
+	vInnerTame   = []string{" ", "/", ".", "_", "-", "'", "&", "+", "%", "(", ")", ",", "<", ">"}
+	vEdgeClasses = [][]rune{vEdgeASCII, vEdgeASCII, vEdgeASCII, vEdgeDigits, vEdgeCyr, vEdgeGreek, vEdgeCJK, vEdgeLatin, vEdgeOther}
 )
 
 func vGenEdgeRune(t *rapid.T, label string) rune {
@@ -191,6 +192,15 @@ func vGenEdgeRune(t *rapid.T, label string) rune {
 var vLongNameOneIn = 10 // set by generators that want more names longer than the report columns
 
 func vGenName(t *rapid.T, wild bool, label string) string {
+	if rapid.IntRange(0, 24).Draw(t, label+".cjk") == 0 {
+		// few runes, many bytes: 5-14 three-byte characters
+		k := rapid.IntRange(5, 14).Draw(t, label+".cjkn")
+		r := make([]rune, k)
+		for i := range r {
+			r[i] = vEdgeCJK[rapid.IntRange(0, len(vEdgeCJK)-1).Draw(t, label+".cjkr")]
+		}
+		return string(r)
+	}
 	n := rapid.IntRange(1, 6).Draw(t, label+".len")
 	if rapid.IntRange(0, vLongNameOneIn-1).Draw(t, label+".long") == 0 {
 		n += rapid.IntRange(5, 30).Draw(t, label+".extra")
@@ -245,6 +255,21 @@ func vGenNamePool(t *rapid.T, wild bool, k int, label string) []string {
 		}
 		if nm == "h" || nm == "help" { // urfave/cli reads these as its help command when they are an argument
 			nm += "x"
+		}
+		if len(out) > 0 && rapid.IntRange(0, 9).Draw(t, fmt.Sprintf("%s%d.affix", label, i)) == 0 {
+			// an earlier name as a proper suffix or prefix of this one ("sauce" / "pasta with sauce")
+			src := out[rapid.IntRange(0, len(out)-1).Draw(t, fmt.Sprintf("%s%d.affixsrc", label, i))]
+			sep := []string{" ", "/", " with ", "-"}[rapid.IntRange(0, 3).Draw(t, fmt.Sprintf("%s%d.affixsep", label, i))]
+			short := string(vEdgeASCII[rapid.IntRange(0, 25).Draw(t, fmt.Sprintf("%s%d.affixch", label, i))])
+			if rapid.Bool().Draw(t, fmt.Sprintf("%s%d.affixside", label, i)) {
+				nm = short + sep + src
+			} else {
+				nm = src + sep + short
+			}
+		}
+		if len(out) > 0 && rapid.IntRange(0, 9).Draw(t, fmt.Sprintf("%s%d.digitext", label, i)) == 0 {
+			// an earlier name extended by a digit ("b1" and "b12")
+			nm = out[rapid.IntRange(0, len(out)-1).Draw(t, fmt.Sprintf("%s%d.digitsrc", label, i))] + fmt.Sprint(rapid.IntRange(0, 9).Draw(t, fmt.Sprintf("%s%d.digit", label, i)))
 		}
 		if len(out) > 0 && rapid.IntRange(0, 7).Draw(t, fmt.Sprintf("%s%d.twin", label, i)) == 0 {
 			// a long name that shares its first and last ten runes with an earlier long name
@@ -439,7 +464,7 @@ func vGenNoteLayout(t *rapid.T, o vLayoutOpts, label string) vLayout {
 	}
 }
 
-var vNoteWords = []string{"barcode", "boiling time", "12 min", "0000000000000", "source", "label", "see page 3", "вкусно", "brand X", "a-b", "x.y", "n/a", "50%", "home made"}
+var vNoteWords = []string{"barcode", "boiling time", "12 min", "0000000000000", "source", "label", "see page 3", "вкусно", "brand X", "a-b", "x.y", "n/a", "50%", "home made", "20% of the budget", "at 7", "12h30"}
 
 func vGenNoteLine(t *rapid.T, o vLayoutOpts, label string) vLine {
 	w := func(l string) string { return vNoteWords[rapid.IntRange(0, len(vNoteWords)-1).Draw(t, l)] }
@@ -623,7 +648,7 @@ func vGenBook(t *rapid.T, o vBookOpts, label string) (vDoc, vBookInfo) {
 		if o.Paths {
 			w1, w2, par = uniq("w/wide1"), uniq("w/wide2"), uniq("w/parent")
 		}
-		npool := rapid.IntRange(34, 60).Draw(t, label+".widepool")
+		npool := rapid.IntRange(34, 90).Draw(t, label+".widepool")
 		mk := func(head string, lbl string) vRec {
 			var lines []vLine
 			for i := 0; i < npool; i++ {
@@ -635,6 +660,18 @@ func vGenBook(t *rapid.T, o vBookOpts, label string) (vDoc, vBookInfo) {
 					num = vGenNumDecimal(t, lbl+".v")
 				}
 				lines = append(lines, vLine{Kind: vkEntry, Name: fmt.Sprintf("n%02d", i), Num: num, L: vGenEntryLayout(t, o.Layout, lbl+".el")})
+			}
+			// recipe references at the very end of a long list (position 65 and beyond when the pool is large)
+			if o.MaxDepth >= 3 {
+				for j := 0; j < nrec && j < len(levels); j++ {
+					if levels[j] == 0 && rapid.Bool().Draw(t, lbl+".tailref") {
+						cf := "2"
+						if !o.Exact {
+							cf = vGenNumDecimal(t, lbl+".tailcoef")
+						}
+						lines = append(lines, vLine{Kind: vkEntry, Name: recNames[j], Num: cf, L: vGenEntryLayout(t, o.Layout, lbl+".el")})
+					}
+				}
 			}
 			return vRec{Head: head, HL: vGenHeadLayout(t, o.Layout, lbl+".hl"), Lines: lines}
 		}
@@ -740,6 +777,8 @@ func vFmtDay(day int, layout string) string {
 		return fmt.Sprintf("%d %s %04d", d, vMonthAbbr[m-1], y)
 	case "20060102":
 		return fmt.Sprintf("%04d%02d%02d", y, m, d)
+	case "2006-01-02 15:04": // midnight; records with a time of day are rendered by their generator
+		return fmt.Sprintf("%04d-%02d-%02d 00:00", y, m, d)
 	}
 	vFault("unsupported layout %q", layout)
 	return ""
